@@ -193,7 +193,14 @@ impl Expression {
                 let (array_ty_nomod, modifer) = module.type_registry.extract_modifier(array_ty.0);
                 let array_tyl_nomod = module.type_registry.get_type_layer(array_ty_nomod);
                 let ty = match array_tyl_nomod {
-                    TypeLayer::Array(element, _) => element,
+                    TypeLayer::Array(element, _) => {
+                        // An element of a const array is const
+                        if modifer.is_const {
+                            module.type_registry.make_const(element)
+                        } else {
+                            element
+                        }
+                    }
                     TypeLayer::Vector(st, _) => module.type_registry.combine_modifier(st, modifer),
                     TypeLayer::Matrix(st, _, y) => {
                         let ty = module.type_registry.register_type(TypeLayer::Vector(st, y));
@@ -238,6 +245,20 @@ impl Expression {
                 assert!(member_index < def.members.len() as u32);
 
                 let member_type = def.members[member_index as usize].type_id;
+
+                // A member of a const object is const
+                let (expr_unmodified, expr_modifier) =
+                    module.type_registry.extract_modifier(expr_type.0);
+                let is_struct = matches!(
+                    module.type_registry.get_type_layer(expr_unmodified),
+                    TypeLayer::Struct(_)
+                );
+                let member_type = if expr_modifier.is_const && is_struct {
+                    module.type_registry.make_const(member_type)
+                } else {
+                    member_type
+                };
+
                 Ok(ExpressionType(member_type, expr_type.1))
             }
             Expression::ObjectMember(ref expr, ref name) => {
